@@ -21,6 +21,7 @@ def run(tier, seed):
                 cases.append(Case('verify_a%d_len%d' % (algo, n), 'crypto', 'zzC11_verify', [algo, n, 0], opts=O))
         cases.append(Case('errors_a%d' % algo, 'crypto', 'zzC11_errors', [algo], opts=O))
         cases.append(Case('twin_a%d' % algo, 'crypto', 'zzC11_changes', [algo], opts=O))
+        cases.append(Case('overflow_s_a%d' % algo, 'crypto', 'zzC11_overflow', [algo], opts=O))
     cases.sort(key=lambda c: 0 if c.fn == 'zzC11_sign' else 1)
     return run_check('C11', cases, tier, seed, setup='symex.setup_c:with_c',
         functions=FUNCS,
